@@ -330,7 +330,9 @@ def s_signature_gate(C, rep, rid):
         rep.ob(rid, okb, fn, "bolt11 is the string that was parsed", where=loc(s["sp"]), how=show(bo)[:80], detail="" if okb else "bolt11 is %s but the invoice was parsed from %s" % (show(bo)[:60], show(srcs[0])[:60] if srcs else "?"))
         # the parsed string comes from TLV 33001 of the payment metadata (TLV 16) of the onion payload
         chain = show(inv)
-        gets = [x for x in walk(inv) if x[0] == "call" and x[1] == "tlv::SerializedTlvStream::get"]
+        bfile = b.span.get("f")
+        inv_x = strip(mm.inline_pure(F, X, inv, depth=3, keep=lambda n, bfile=bfile: F.by_cdef.get(n) is None or F.by_cdef[n].span.get("f") != bfile or n.startswith("<")))
+        gets = [x for x in walk(inv_x) if x[0] == "call" and x[1] == "tlv::SerializedTlvStream::get"]
         consts = sorted({x[2][1][2] for x in gets if len(x[2]) > 1 and x[2][1][0] == "const"})
         okc = consts == [16, 33001]
         rep.ob(rid, okc, fn, "invoice comes from record 33001 inside payment metadata (record 16)", where=loc(s["sp"]), how=str(consts), detail="" if okc else "invoice bytes come from TLV path %s" % consts)
@@ -414,6 +416,8 @@ def _tu64_rules(F, X, rep, rid, fn, b, is_helper):
         recv = strip(X.operand(b, c.args[0]))
         if is_helper:
             recv = strip(mm.expand_params(F, X, recv, depth=2))
+        bfile_ = b.span.get("f")
+        recv = strip(mm.inline_pure(F, X, recv, depth=3, keep=lambda n, bfile_=bfile_: F.by_cdef.get(n) is None or F.by_cdef[n].span.get("f") != bfile_ or n.startswith("<")))
         bad = [y for y in walk(recv) if y[0] == "call" and y[1] not in ("tlv::SerializedTlvStream::get", "tlv::FromBytes::from_bytes", "bytes::Bytes::from", "bytes::Bytes::copy_from_slice", "std::vec::Vec::as_slice", "bytes::Bytes::from_static")
                and not y[1].startswith("tlv::") and y[1] not in ("std::convert::TryFrom::try_from", "std::convert::TryInto::try_into")]
         rep.ob(rid, not bad, fn, "the whole amount field is decoded", where=c.loc, how=show(recv)[:90],
